@@ -176,6 +176,7 @@ type Server struct {
 	stdin   io.WriteCloser
 	logPath string
 	logF    *os.File
+	exited  chan struct{}
 }
 
 // FreePort asks the kernel for a free TCP port.
@@ -248,6 +249,8 @@ func StartServer(o ServerOpts) (*Server, error) {
 			return nil, err
 		}
 		s.cmd = cmd
+		s.exited = make(chan struct{})
+		go func(c *exec.Cmd, ch chan struct{}) { c.Wait(); close(ch) }(cmd, s.exited)
 		deadline := time.Now().Add(10 * time.Second)
 		ok := false
 		for time.Now().Before(deadline) {
@@ -256,11 +259,16 @@ func StartServer(o ServerOpts) (*Server, error) {
 				c, err := net.DialTimeout("tcp", fmt.Sprintf("127.0.0.1:%d", port), time.Second)
 				if err == nil {
 					c.Close()
-					ok = true
+					// the port may have been taken by somebody else's server in the meantime: ours must have survived binding
+					time.Sleep(15 * time.Millisecond)
+					b, _ = os.ReadFile(s.logPath)
+					if s.Alive() && !bytes.Contains(b, []byte("Failed to open listening")) {
+						ok = true
+					}
 					break
 				}
 			}
-			if cmd.ProcessState != nil {
+			if !s.Alive() {
 				break
 			}
 			time.Sleep(10 * time.Millisecond)
@@ -293,7 +301,24 @@ func (s *Server) Alive() bool {
 	if s.cmd == nil || s.cmd.Process == nil {
 		return false
 	}
-	return syscall.Kill(s.cmd.Process.Pid, 0) == nil && s.cmd.ProcessState == nil
+	select {
+	case <-s.exited:
+		return false
+	default:
+	}
+	return syscall.Kill(s.cmd.Process.Pid, 0) == nil
+}
+
+// DumpGoroutines makes the server print its goroutines into its log (SIGQUIT; the server dies).
+func (s *Server) DumpGoroutines() []byte {
+	if s.cmd != nil && s.cmd.Process != nil {
+		syscall.Kill(s.cmd.Process.Pid, syscall.SIGQUIT)
+		select {
+		case <-s.exited:
+		case <-time.After(3 * time.Second):
+		}
+	}
+	return s.Log()
 }
 
 // Pid of the server process.
@@ -303,7 +328,9 @@ func (s *Server) Pid() int { return s.cmd.Process.Pid }
 func (s *Server) Stop() {
 	if s.cmd != nil && s.cmd.Process != nil {
 		syscall.Kill(-s.cmd.Process.Pid, syscall.SIGKILL)
-		s.cmd.Wait()
+		if s.exited != nil {
+			<-s.exited
+		}
 	}
 	if s.stdin != nil {
 		s.stdin.Close()
